@@ -7,15 +7,32 @@ Two models are run on every generated tree of circuits:
   * LW.Model.Optic (Optic.compose …): the *specification* — ports, private ancillas, one matrix —
     whose canonical closed form [free ports | heralds | loss] is the property's oracle: the
     implementation's U_full with rows/columns selected by its public `heralds` must equal it.
+
+Three streams of programs (helpers in harness/c02gen.py):
+  1. a directed corpus: a parent that first ACQUIRES private ancillas in a prescribed layout (one / two /
+     three; placed in ascending or descending order; adjacent; at position 0; at the last position; from
+     sub-circuits without user modes) and then receives every public call that takes mode arguments -
+     herald (one-mode, two-mode, None and keyword forms), bs with the default mode_2, ps, loss (default
+     value), barrier with / without list, mode_swaps, add in every argument form (default mode, keyword,
+     named, grouped or not) - at user modes below / between / above the ancillas, in-range and just
+     out of range; plus nesting with mixed grouping flags, the same block placed more than once;
+  2. randomised histories of the same kind (random layouts, random mix of calls, calls on a copy, the
+     parent itself added to a larger circuit that owns ancillas);
+  3. random trees of circuits (as before), every call issued in a random accepted call form.
+In all streams the call forms only change HOW the arguments are passed; the model receives the resolved
+arguments that the documentation assigns to the omitted ones, in user mode numbers.
 """
 
 from __future__ import annotations
 
 import itertools
 import json
+import random
+import time
 
 import numpy as np
 
+import c02gen as cf
 import circgen as cg
 from core import CIRCLE, PYTH, Ctx, ddmin, mat_close, parse_mat
 
@@ -35,9 +52,10 @@ ASSUMPTIONS = [
 
 
 class Gen:
-    def __init__(self, ctx: Ctx, rng) -> None:
+    def __init__(self, ctx: Ctx, rng, frng=None) -> None:
         self.ctx = ctx
         self.rng = rng
+        self.frng = frng or rng  # call forms are drawn from their own stream: the trees stay the same
         self.prog: list = []
         self.ports: dict[str, int] = {}
         self.hin: dict[str, set] = {}
@@ -72,11 +90,15 @@ class Gen:
                 uid = self.fresh()
                 self.prog.append(["unitary", uid, cg.mat_json(cg.exact_unitary(rng, sz))])
                 self.ports[uid], self.hin[uid], self.hout[uid], self.anc[uid] = sz, set(), set(), 0
-                self.prog.append(["add", cid, uid, rng.randint(0, n - sz), rng.random() < 0.4])
+                self.emit(["add", cid, uid, rng.randint(0, n - sz), rng.random() < 0.4])
                 self.ctx.count("add_unitary_block")
             else:
-                self.prog.append(cg.rand_prim_op(rng, cid, n, p_invalid=0.05))
+                self.emit(cg.rand_prim_op(rng, cid, n, p_invalid=0.05))
         return cid
+
+    def emit(self, op: list) -> None:
+        """append a call, issued in a random accepted call form (same resolved arguments)"""
+        self.prog.append(cf.decorate(self.ctx, self.frng, op, p=0.5))
 
     def herald(self, cid: str) -> None:
         rng = self.rng
@@ -86,14 +108,16 @@ class Gen:
         if rng.random() < 0.08:  # duplicate / out of range -> rejected
             i = rng.choice([*self.hin[cid], n, -1] or [n])
             o = rng.choice(fo or [0])
-            self.prog.append(["herald", cid, rng.randint(0, 2), i, o])
+            self.emit(["herald", cid, rng.randint(0, 2), i, o])
             return
         i = rng.choice(fi)
         o = i if (rng.random() < 0.5 and i in fo) else rng.choice(fo)
         self.hin[cid].add(i)
         self.hout[cid].add(o)
-        self.prog.append(["herald", cid, rng.choice([0, 1, 1, 2]), i, o])
+        self.emit(["herald", cid, rng.choice([0, 1, 1, 2]), i, o])
         self.ctx.count("herald_in!=out" if i != o else "herald_in==out")
+        if self.anc[cid]:
+            self.ctx.count("herald_declared_after_ancillas_exist")
 
     def add_sub(self, cid: str, depth: int) -> None:
         rng = self.rng
@@ -109,22 +133,22 @@ class Gen:
         nh = len(self.hin[sid]) + self.anc[sid]
         if q > p or rng.random() < 0.08:
             m = rng.choice([p - q + 1, p, -1, p + 2]) if q <= p else rng.randint(0, p)
-            self.prog.append(["add", cid, sid, m, rng.random() < 0.5])
+            self.emit(["add", cid, sid, m, rng.random() < 0.5])
             self.ctx.count("add_rejected_expected")
             return
         m = rng.randint(0, p - q) if p > 0 else 0
         if p == 0 or m >= p:
-            self.prog.append(["add", cid, sid, m, False])
+            self.emit(["add", cid, sid, m, False])
             return
-        self.prog.append(["add", cid, sid, m, rng.random() < 0.5])
+        self.emit(["add", cid, sid, m, rng.random() < 0.5])
         self.ctx.count("add_heralded" if nh else "add_plain")
         if nh and self.anc[cid]:
             self.ctx.count("add_heralded_onto_parent_with_ancillas")
         self.anc[cid] += nh
 
 
-def gen_program(ctx: Ctx, rng) -> tuple[list, list]:
-    g = Gen(ctx, rng)
+def gen_program(ctx: Ctx, rng, frng=None) -> tuple[list, list]:
+    g = Gen(ctx, rng, frng)
     depth = rng.choice([1, 2, 2, 3])
     g.circuit(depth)
     return g.prog, list(g.ports)
@@ -171,7 +195,7 @@ def match_closed(w, hn_in, hn_out, q, mc) -> str | None:
 def run_case(ctx: Ctx, prog: list, ids: list) -> list[str]:
     probs: list[str] = []
     pool: dict = {}
-    impl_res = [cg.apply_op(pool, op) for op in prog]
+    impl_res = [cf.apply_op(pool, op) for op in prog]
     ids = [i for i in ids if i in pool]
     mres = ctx.model.call({"op": "circ", "prog": prog, "observe": ids, "optic": True})
     for k, (a, b, s) in enumerate(zip(impl_res, mres["results"], mres["optic_results"])):
@@ -211,33 +235,85 @@ def run_case(ctx: Ctx, prog: list, ids: list) -> list[str]:
     return probs
 
 
+def check_program(ctx: Ctx, prog: list, ids: list, nontriv: bool, sample: bool, stream: str) -> None:
+    probs = run_case(ctx, prog, ids)
+    ctx.case(repr(prog), nontriv, sample=prog if sample else None)
+    if not probs:
+        return
+    ctx.count("programs_with_problems")
+    ctx.count(f"programs_with_problems:{stream}")
+
+    def still(sub):
+        return cg.well_formed(sub) and bool(run_case(ctx, sub, ids))
+
+    # the first failing programs are shrunk fully (their replays are written); once the report quota is used
+    # up the remaining ones are only shrunk briefly, so that a broken library does not cost minutes
+    reported = len(ctx.violations) + len(ctx.disagreements)
+    small = ddmin(prog, still, max_tests=400 if reported < ctx.max_reports else 25)
+    sprobs = run_case(ctx, small, ids) or probs
+    oracle = [p for p in sprobs if p.startswith("oracle")]
+    if oracle:
+        ctx.violation(oracle[0], {"program": small, "problems": sprobs, "observe": ids},
+                      sig={"kind": "closed-form", "ops": sorted({o[0] for o in small})})
+    else:
+        ctx.disagreement(sprobs[0], {"program": small, "problems": sprobs, "observe": ids})
+
+
+def _has(prog: list, *names: str) -> bool:
+    return all(any(op[0] == n for op in prog) for n in names)
+
+
 def run(ctx: Ctx) -> None:
-    ctx.rule = ("random trees of circuits (depth <= 3; primitives, declared heralds with in != out in ~50%, "
-                "additions at random user modes, grouped or not, objects reused as arguments, ~8% rejected calls); "
-                "non-trivial = contains an accepted addition of a circuit with heralds; distinct = distinct program")
+    ctx.rule = ("(1) directed histories: a parent acquires private ancillas in each of "
+                f"{len(cf.LAYOUTS)} layouts (1-3 ancillas, ascending / descending placement, adjacent, at position 0, "
+                "last, pure-ancilla sub-circuits), then every public call with mode arguments in every call form "
+                "(defaults omitted / None / keyword) at every user mode, in range and just out of range; nesting with "
+                "mixed grouping flags and repeated placement; (2) randomised histories of the same kind (also on a "
+                "copy, also nested into a parent with ancillas); (3) random trees of circuits (depth <= 3; primitives, "
+                "declared heralds with in != out in ~50%, additions at random user modes, grouped or not, objects "
+                "reused as arguments, ~8% rejected calls, random call forms); non-trivial = contains an accepted "
+                "addition of a circuit with heralds; distinct = distinct program")
+    seed = ctx.seed
+    hrng = random.Random(f"C02-histories-{seed}")
+    frng = random.Random(f"C02-forms-{seed}")
+
+    t0 = time.time()
+    # -- 1. directed corpus (always first)
+    for layout in cf.LAYOUTS:
+        for group in cf.PROBE_GROUPS:
+            if ctx.out_of_time():
+                break
+            prog, ids = cf.directed_history(ctx, hrng, layout, group)
+            check_program(ctx, prog, ids, True, False, "directed")
+    for variant in (0, 1, 2):
+        for g1 in (True, False):
+            for g2 in (False, True):
+                prog, ids = cf.mixed_group_nesting(ctx, hrng, g1, g2, variant)
+                check_program(ctx, prog, ids, False, False, "nesting")
+
+    t1 = time.time()
+    # -- 2. randomised histories
+    for i in range(ctx.n(110, 4000)):
+        if ctx.out_of_time():
+            break
+        if i % 8 == 7:
+            prog, ids = cf.mixed_group_nesting(ctx, hrng, hrng.random() < 0.5, hrng.random() < 0.5, hrng.randrange(3))
+            check_program(ctx, prog, ids, False, False, "nesting")
+            continue
+        prog, ids = cf.random_history(ctx, hrng)
+        check_program(ctx, prog, ids, _has(prog, "add", "herald"), i == 0, "history")
+
+    t2 = time.time()
+    # -- 3. random trees
     N = ctx.n(300, 8000)
     rng = ctx.rng
     for i in range(N):
         if ctx.out_of_time():
             break
-        prog, ids = gen_program(ctx, rng)
-        probs = run_case(ctx, prog, ids)
-        nontriv = any(op[0] == "add" for op in prog) and any(op[0] == "herald" for op in prog)
-        ctx.case(repr(prog), nontriv, sample=prog if i < 2 else None)
-        if probs:
-            ctx.count("programs_with_problems")
-
-            def still(sub):
-                return cg.well_formed(sub) and bool(run_case(ctx, sub, ids))
-
-            small = ddmin(prog, still)
-            sprobs = run_case(ctx, small, ids) or probs
-            oracle = [p for p in sprobs if p.startswith("oracle")]
-            if oracle:
-                ctx.violation(oracle[0], {"program": small, "problems": sprobs, "observe": ids},
-                              sig={"kind": "closed-form", "ops": sorted({o[0] for o in small})})
-            else:
-                ctx.disagreement(sprobs[0], {"program": small, "problems": sprobs, "observe": ids})
+        prog, ids = gen_program(ctx, rng, frng)
+        check_program(ctx, prog, ids, _has(prog, "add", "herald"), i < 2, "trees")
+    ctx.extra["stream_wall_s"] = {"directed": round(t1 - t0, 1), "histories": round(t2 - t1, 1),
+                                  "trees": round(time.time() - t2, 1)}
 
 
 def replay(ctx: Ctx, path: str) -> None:
